@@ -7,5 +7,6 @@ def main():
     common.tool_build()
     import c03_cpp
     c03_cpp.build()
+    c03_cpp.build_c()
     common.log("setup done")
     return 0
